@@ -501,3 +501,25 @@ mod tests {
         schema.finish().unwrap_err();
     }
 }
+
+#[cfg(feature = "verif-hooks")]
+#[doc(hidden)]
+#[allow(missing_docs)]
+pub mod verif_hooks {
+    use super::*;
+    use crate::dynamic::Object;
+
+    pub fn check_object_implements(
+        implementing_type: &Object,
+        implemented_type: &Interface,
+    ) -> Result<(), SchemaError> {
+        super::check_is_valid_implementation(implementing_type, implemented_type)
+    }
+
+    pub fn check_interface_implements(
+        implementing_type: &Interface,
+        implemented_type: &Interface,
+    ) -> Result<(), SchemaError> {
+        super::check_is_valid_implementation(implementing_type, implemented_type)
+    }
+}
